@@ -118,6 +118,8 @@ class LsClient:
         if "panicked at" in txt:
             i = txt.index("panicked at")
             return " ".join(txt[i:i + 400].split())
+        if "overflowed its stack" in txt:
+            return "fatal runtime error: stack overflow (analysis thread overflowed its stack)"
         return None
 
     def _handle(self, msg):
@@ -255,11 +257,17 @@ class LsClient:
 
     def quiesce(self):
         """Wait until every queued background task has ended and the analysis thread is idle."""
-        self.pump_until(lambda: self.ends >= self.tasks, "end of background analysis (%d/%d)" % (self.ends, self.tasks))
-        # round trip through the sequential analysis thread: answered after the post-background re-publish
-        self.request("workspace/symbol", {"query": "\u0001no-such-symbol\u0001"})
-        # and once more: the first request may have been received before the thread looked at its queue
-        self.request("workspace/symbol", {"query": "\u0001no-such-symbol\u0001"})
+        while True:
+            self.pump_until(lambda: self.ends >= self.tasks and self.ends >= self.begins,
+                            "end of background analysis (%d/%d, %d begun)" % (self.ends, self.tasks, self.begins))
+            b = self.begins
+            # round trips through the sequential analysis thread: answered after the post-background re-publish;
+            # twice because the first request may have been queued before the thread looked at its task queue
+            self.request("workspace/symbol", {"query": "\u0001no-such-symbol\u0001"})
+            self.request("workspace/symbol", {"query": "\u0001no-such-symbol\u0001"})
+            if self.begins == b and self.ends >= self.begins:
+                return
+            # a task we did not expect started meanwhile (e.g. a server that queues more work than modelled): wait for it
 
     def symbols(self):
         """all symbols whose name contains an upper-case letter other than T.  (An empty query - or any query matching
